@@ -55,6 +55,58 @@ func c12(r *core.Run) {
 	// the summary that reaches the IR is the one that was derived: start before step, operands through the renamer
 	r.Under("C02.NONAME", "C12.RENDER", func() { c02RenamerThreaded(r) })
 	c12Invariant(r)
+	c12StepOperand(r)
+}
+
+// c12StepOperand: the update of an induction variable is `phi op step` (or `step + phi`): the step is the operand
+// that is NOT the variable itself. Where the classifier picks the step out of a binary operation, operand Y is
+// taken on the path that established X == phi, and operand X on the path that established Y == phi.
+func c12StepOperand(r *core.Run) {
+	p := r.P
+	n := 0
+	for _, fn := range p.FuncsIn("pkg/analysis/loop") {
+		// the classifier: the function that builds the InductionVariable
+		isClassifier := false
+		core.InstrsOf(fn, func(in ssa.Instruction) {
+			if al, ok := in.(*ssa.Alloc); ok && strings.HasSuffix(core.Deref(al.Type()).String(), "loop.InductionVariable") {
+				isClassifier = true
+			}
+		})
+		if !isClassifier {
+			continue
+		}
+		core.InstrsOf(fn, func(in ssa.Instruction) {
+			ph, ok := in.(*ssa.Phi)
+			if !ok || !strings.HasSuffix(ph.Type().String(), "ssa.Value") {
+				return
+			}
+			for i, e := range ph.Edges {
+				base, name, isF := fieldLoadBy(core.Unwrap(e), func(types.Type) bool { return true })
+				if !isF || (name != "X" && name != "Y") || !strings.HasSuffix(core.Deref(base.Type()).String(), "ssa.BinOp") || i >= len(ph.Block().Preds) {
+					continue
+				}
+				other := map[string]string{"X": "Y", "Y": "X"}[name]
+				n++
+				ok1, n1, _ := core.MustPassUse(fn, core.Use{At: ph.Block(), Via: ph.Block().Preds[i]}, func(cond ssa.Value) (bool, bool) {
+					op, x, y, neg, okC := core.Compare(cond)
+					if !okC || neg || (op != token.EQL && op != token.NEQ) {
+						return false, false
+					}
+					for _, pair := range [][2]ssa.Value{{x, y}, {y, x}} {
+						b2, n2, isF2 := fieldLoadBy(core.Unwrap(pair[0]), func(types.Type) bool { return true })
+						if isF2 && n2 == other && core.Canon(b2) == core.Canon(base) {
+							if _, isPhiT := core.Deref(pair[1].Type()).(*types.Named); isPhiT || strings.HasSuffix(pair[1].Type().String(), "ssa.Phi") {
+								return true, op == token.EQL
+							}
+						}
+					}
+					return false, false
+				})
+				r.Check(ok1 && n1 > 0, "C12.IV", core.FuncName(fn)+"#step-is-the-other-operand("+name+")", e.Pos(), "operand "+name+" is taken as the step where operand "+other+" was found to be the variable", "operand "+name+" of the update is taken as the step on a path that did not establish that operand "+other+" is the variable: `i = 1 + i` yields the variable itself as its step, the update is no longer recognised (or is summarised with the wrong step)")
+			}
+		})
+	}
+	r.Floor("C12.IV", "step operands picked out of an update", n, 2)
 }
 
 // c12Invariant: a composite symbolic expression is loop-invariant only if ALL its operands are: in every
